@@ -337,6 +337,21 @@ def rewrite_after_edit(case):
             c.colors[0] = (3, 2, 1)
             d["colors"][0] = [3, 2, 1]
             edited = True
+    # ... and one stored coordinate and one confidence overwritten IN PLACE (through the arrays the body holds): what is written is
+    # what the arrays hold at the time of the write
+    try:
+        raw = pose.body.data.data
+        if raw.size and len(case2.get("data") or []) == raw.size and raw.flags.writeable:
+            raw[(0,) * raw.ndim] = 2.5
+            case2["data"][0] = b64(2.5)
+            edited = True
+        cf = pose.body.confidence
+        if cf.size and len(case2.get("conf") or []) == cf.size and cf.flags.writeable:
+            cf[(cf.shape[0] - 1,) + (0,) * (cf.ndim - 1)] = 0.75
+            case2["conf"][(cf.shape[0] - 1) * (cf.size // cf.shape[0])] = b64(0.75)
+            edited = True
+    except Exception:
+        pass
     if not edited:
         return None
     def w(p):
@@ -355,7 +370,7 @@ def rewrite_after_edit(case):
         if got[0] != want[0]:
             return "second write of the edited pose %s, a fresh pose with the same header %s" % (got[0], want[0])
         i = next((k for k in range(min(len(got[1]), len(want[1]))) if got[1][k] != want[1][k]), min(len(got[1]), len(want[1])))
-        return "second write of the pose (header edited in place after the first write) differs from the file of the edited pose at byte %d%s" % (
+        return "second write of the pose (header and arrays edited in place after the first write) differs from the file of the edited pose at byte %d%s" % (
             i, " - it still equals the first file" if got[1] == b1.getvalue() else "")
     return None
 
